@@ -313,7 +313,7 @@ def fin (c : Ctx) : Nat → Kont → STree
         match a with
         | .finish none => retHaltS "DONE"
         | .finish (some code) => retHaltS ("FINISH_" ++ code)
-        | .yield code => .emit (.yield code) (fin c fuel K')
+        | .yield _ => retHaltS "FAIL"     -- (a yield needs the re-invocation protocol of feed: not an action of end())
         | .brk id => fin c fuel (dropLoop id K')
         | .appendC i e =>
           .ask (.full i) (match unwind true K' with | some Kh => fin c fuel Kh | none => retHaltS "FAIL")
